@@ -7,7 +7,9 @@ package main
 //   (1) truncated at byte level (every offset for small streams, sampled for large), and
 //   (2) mutated at field level (indices / spans in {-1, 0, max, max+1, 2^47, 2^62, ...}, unknown
 //       enum values, swapped series kinds, missing / duplicated / foreign messages, out-of-file
-//       bsdiff seeks and adds, fewer / more block hashes, other well-formed containers),
+//       bsdiff seeks and adds - including adds that reach exactly / run past / start exactly at
+//       the end of the old file, over old files whose sizes sit on and around the 32 KiB chunks of
+//       the applier's read cache -, fewer / more block hashes, other well-formed containers),
 // re-encoded through wire.WriteContext under {none, gzip, brotli} framing and fed, in a child
 // process, to patcher.New+Resume (fresh and overlay bowl), rediff.NewContext+Optimize,
 // pwr.ReadSignature+ComputeHashInfo(+ValidatingPool) and overlay Patch.
@@ -121,7 +123,56 @@ func c10FixedScenarios(r *lib.Rng) []*c10Scenario {
 		nw.Put(lib.Entry{Path: "h", Kind: "file", Data: []byte("22")})
 		mk("empties", old, nw)
 	}
+	{ // old files whose sizes sit on / next to the boundaries of the bsdiff applier's read cache
+		// (bsdiff/lrufile: 32 KiB chunks; the copy buffer of IndividualPatchContext.Apply is 32 KiB
+		// too) and of the 64 KiB blocks (1, 2, 3 chunks, 1 chunk + 1, 2 chunks - 1, 2 blocks); each is edited in place (same path: rediff maps it to a bsdiff
+		// series) so that the last add of the series ends exactly at the end of the old file
+		old, nw := &lib.Build{}, &lib.Build{}
+		for i, n := range []int{c10LruChunk, 2 * c10LruChunk, 3 * c10LruChunk, c10LruChunk + 1, 2*c10LruChunk - 1, 2 * lib.BS} {
+			a := c10Bytes(r, n)
+			b := append([]byte(nil), a...)
+			// (3/4 of the way: for the two-block file the first block is kept: a BLOCK_RANGE op over a
+			// file whose size is an exact multiple of the block size)
+			copy(b[n/2+n/4:], c10Bytes(r, 9))
+			switch i {
+			case 1: // grown: the series ends with fresh bytes after an add that reaches the end
+				b = append(b, c10Bytes(r, 11)...)
+			case 2: // shrunk: the series ends before the end of the old file
+				b = b[:n-c10LruChunk/2]
+			}
+			name := fmt.Sprintf("c%d.bin", i)
+			old.Put(lib.Entry{Path: name, Kind: "file", Data: a})
+			nw.Put(lib.Entry{Path: name, Kind: "file", Data: b})
+		}
+		mk("chunks", old, nw)
+	}
 	return out
+}
+
+// c10LruChunk: chunk size of the LRU file cache the bsdiff applier reads the old file through
+// (bsdiff/patch.go: lruChunkSize) = size of its copy buffer (minBufferSize).
+const c10LruChunk = 32 * 1024
+
+// c10ChunkPair draws a build pair whose file sizes are k*32 KiB + {-1, 0, 0, +1} (1 <= k <= 4), each
+// file edited by lib.Edit: the random counterpart of the fixed "chunks" scenario.
+func c10ChunkPair(r *lib.Rng) (*lib.Build, *lib.Build, []string) {
+	old, nw := &lib.Build{}, &lib.Build{}
+	var rel []string
+	nf := r.Range(1, 3)
+	for i := 0; i < nf; i++ {
+		n := r.Range(1, 4)*c10LruChunk + []int{-1, 0, 0, 1}[r.Intn(4)]
+		a := lib.GenContent(r, n)
+		b, how := lib.Edit(r, a)
+		if bytes.Equal(a, b) {
+			b = append(append([]byte(nil), a...), 7)
+			how = "append1"
+		}
+		name := fmt.Sprintf("k%d.bin", i)
+		old.Put(lib.Entry{Path: name, Kind: "file", Data: a})
+		nw.Put(lib.Entry{Path: name, Kind: "file", Data: b})
+		rel = append(rel, fmt.Sprintf("%d:%s", n, how))
+	}
+	return old, nw, rel
 }
 
 // c10Prepare materializes the builds and produces the valid base streams.
@@ -212,6 +263,9 @@ type c10Mut struct {
 	Class string // mutation class (histogram key)
 	Desc  string
 	Apply func(s *c10Stream) // edits a private clone
+	// Always: a boundary mutation that is planned on every run for every base stream it applies
+	// to (not subject to the per-base budget): the bsdiff adds aimed at the end of the old file
+	Always bool
 }
 
 const (
@@ -238,7 +292,7 @@ func c10Uniq(xs []int64) []int64 {
 func c10PatchMuts(s *c10Stream) []c10Mut {
 	var out []c10Mut
 	nT, nS := int64(len(s.TC.Files)), int64(len(s.SC.Files))
-	add := func(class, desc string, f func(s *c10Stream)) { out = append(out, c10Mut{class, desc, f}) }
+	add := func(class, desc string, f func(s *c10Stream)) { out = append(out, c10Mut{class, desc, f, false}) }
 	maxTsize := int64(0)
 	for _, f := range s.TC.Files {
 		if f.Size > maxTsize {
@@ -249,6 +303,11 @@ func c10PatchMuts(s *c10Stream) []c10Mut {
 	// size of the old file (so that seeks landing just before 0 / exactly at / just past the end
 	// of the old file can be aimed at)
 	bsOff, bsOld := int64(0), int64(0)
+	bsKnown, bsFirst := false, false // inside a series whose old file is known; no control of it seen yet
+	always := func(class, desc string, f func(s *c10Stream)) { out = append(out, c10Mut{class, desc, f, true}) }
+	insertAt := func(s *c10Stream, at int, m proto.Message) {
+		s.Msgs = append(s.Msgs[:at:at], append([]proto.Message{m}, s.Msgs[at:]...)...)
+	}
 	for i, m := range s.Msgs {
 		i := i
 		switch x := m.(type) {
@@ -317,9 +376,10 @@ func c10PatchMuts(s *c10Stream) []c10Mut {
 				add("op.data-as-control-eof", fmt.Sprintf("msg %d SyncOp DATA blockSpan=1", i), func(s *c10Stream) { s.Msgs[i].(*pwr.SyncOp).BlockSpan = 1 })
 			}
 		case *pwr.BsdiffHeader:
-			bsOff, bsOld = 0, 0
+			bsOff, bsOld, bsKnown, bsFirst = 0, 0, false, true
 			if x.TargetIndex >= 0 && x.TargetIndex < nT {
 				bsOld = s.TC.Files[x.TargetIndex].Size
+				bsKnown = true
 			}
 			for _, v := range c10Uniq([]int64{-1, 0, nT - 1, nT, nT + 6, 2049, c10Big62}) {
 				v := v
@@ -358,6 +418,50 @@ func c10PatchMuts(s *c10Stream) []c10Mut {
 					continue
 				}
 				add("ctl.copy"+mid, fmt.Sprintf("msg %d Control.copy=%dB", i, v), func(s *c10Stream) { s.Msgs[i].(*bsdiff.Control).Copy = make([]byte, v) })
+			}
+			// --- adds aimed at the end of the old file ("add lengths past its end"): an add that
+			// reaches exactly the end, one that runs one byte past it, and one that STARTS exactly at
+			// the end (offset == size is a legal seek, nothing is left to read there).  The applier
+			// reads the old file through a cache of 32 KiB chunks with a 32 KiB copy buffer, so these
+			// are different paths for old files whose size is / is not a multiple of the chunk size
+			// (scenario "chunks") and for adds that start on / off a chunk boundary.
+			if bsKnown && !x.Eof && bsOff >= 0 && bsOff <= bsOld && bsOld <= 8<<20 {
+				room := bsOld - bsOff
+				first, off, old := bsFirst, bsOff, bsOld
+				lastOfSeries := false
+				if i+1 < len(s.Msgs) {
+					if nx, ok := s.Msgs[i+1].(*bsdiff.Control); ok && nx.Eof {
+						lastOfSeries = true
+					}
+				}
+				// (planned on every run for the first and the last control of a series, budgeted otherwise)
+				reg := add
+				if first || lastOfSeries {
+					reg = always
+				}
+				if int64(len(x.Add)) != room {
+					reg("ctl.add-to-end", fmt.Sprintf("msg %d Control.add=%dB: from old offset %d exactly to the end of the %d-byte old file", i, room, off, old),
+						func(s *c10Stream) { s.Msgs[i].(*bsdiff.Control).Add = make([]byte, room) })
+				}
+				reg("ctl.add-past-end", fmt.Sprintf("msg %d Control.add=%dB: from old offset %d one byte past the end of the %d-byte old file", i, room+1, off, old),
+					func(s *c10Stream) { s.Msgs[i].(*bsdiff.Control).Add = make([]byte, room+1) })
+				// this control is made to leave the old offset exactly at the end, and one more control
+				// adds a single byte from there
+				seekToEnd := old - after
+				reg("ctl.add-at-end", fmt.Sprintf("msg %d Control.seek=%d leaves old offset %d = end of the old file, then an inserted Control{add:1B}", i, seekToEnd, old),
+					func(s *c10Stream) {
+						s.Msgs[i].(*bsdiff.Control).Seek = seekToEnd
+						insertAt(s, i+1, &bsdiff.Control{Add: []byte{1}})
+					})
+				if lastOfSeries && after+x.Seek != old {
+					// the untouched series, one more 1-byte add before its eof control, wherever it stands
+					at := after + x.Seek
+					reg("ctl.add-after-last", fmt.Sprintf("Control{add:1B} inserted before the eof control msg %d (old offset %d of %d)", i+1, at, old),
+						func(s *c10Stream) { insertAt(s, i+1, &bsdiff.Control{Add: []byte{1}}) })
+				}
+			}
+			if !x.Eof {
+				bsFirst = false
 			}
 			bsOff = after + x.Seek
 			add("ctl.eof"+mid, fmt.Sprintf("msg %d Control.eof flipped", i), func(s *c10Stream) { c := s.Msgs[i].(*bsdiff.Control); c.Eof = !c.Eof })
@@ -430,7 +534,7 @@ func c10PatchMuts(s *c10Stream) []c10Mut {
 
 func c10SigMuts(s *c10Stream) []c10Mut {
 	var out []c10Mut
-	add := func(class, desc string, f func(s *c10Stream)) { out = append(out, c10Mut{class, desc, f}) }
+	add := func(class, desc string, f func(s *c10Stream)) { out = append(out, c10Mut{class, desc, f, false}) }
 	n := len(s.Msgs)
 	for _, k := range []int{1, 2, 3, n / 2, n - 1, n} {
 		k := k
@@ -485,7 +589,7 @@ func c10SigMuts(s *c10Stream) []c10Mut {
 
 func c10OvlMuts(s *c10Stream, oldLen int64) []c10Mut {
 	var out []c10Mut
-	add := func(class, desc string, f func(s *c10Stream)) { out = append(out, c10Mut{class, desc, f}) }
+	add := func(class, desc string, f func(s *c10Stream)) { out = append(out, c10Mut{class, desc, f, false}) }
 	for i, m := range s.Msgs {
 		i := i
 		if x, ok := m.(*overlay.OverlayOp); ok {
@@ -662,6 +766,11 @@ func runC10(c *Ctx) error {
 		old, nw, rel := lib.GenPair(cr, lib.PairOpts{MaxFiles: 4, MaxSize: 3 * lib.BS, Links: true})
 		scs = append(scs, &c10Scenario{Name: fmt.Sprintf("rand%d[%s]", i, strings.Join(rel, ",")), Old: old, New: nw})
 	}
+	// seeded pairs whose file sizes sit on / next to multiples of the 32 KiB cache chunk
+	for i := 0; i < c10N(c, 1, 2); i++ {
+		old, nw, rel := c10ChunkPair(r.Fork())
+		scs = append(scs, &c10Scenario{Name: fmt.Sprintf("chunkrand%d[%s]", i, strings.Join(rel, ",")), Old: old, New: nw})
+	}
 	for i, sc := range scs {
 		if err := c10Prepare(c, sc, i); err != nil {
 			return err
@@ -723,7 +832,29 @@ func runC10(c *Ctx) error {
 					addPlan(&c10Plan{Scenario: sc.Name, Base: b.name, Class: "valid", Desc: fmt.Sprintf("unmutated [whitelist %v]", wl), Framing: fr, Feeder: c10FPatFresh, Stream: b.s.clone(), TruncAt: -1, sc: sc, HasWL: true, WL: wl})
 				}
 			}
-			order := c10Shuffle(cr, len(b.muts))
+			// the boundary mutations that are planned on every run (bsdiff adds aimed at the end of
+			// the old file): fed to the patcher (the optimizer never applies a bsdiff series)
+			var budgeted []int
+			for mi, m := range b.muts {
+				if !m.Always {
+					budgeted = append(budgeted, mi)
+					continue
+				}
+				s := b.s.clone()
+				m.Apply(s)
+				fr := c10Framings[cr.Intn(len(c10Framings))]
+				feeders := []string{c10FPatFresh}
+				if cr.Chance(1, 4) {
+					feeders = append(feeders, c10FPatOverlay)
+				}
+				for _, fd := range feeders {
+					addPlan(&c10Plan{Scenario: sc.Name, Base: b.name, Class: m.Class, Desc: m.Desc, Framing: fr, Feeder: fd, Stream: s, TruncAt: -1, sc: sc})
+				}
+			}
+			order := c10Shuffle(cr, len(budgeted))
+			for k, j := range order {
+				order[k] = budgeted[j]
+			}
 			// keep every mutation class represented: stable-sort the shuffled order round-robin by class
 			order = c10RoundRobin(cr, order, func(i int) string { return b.muts[i].Class }, b.name == "opt")
 			budget := perBase
